@@ -1,4 +1,4 @@
-import DendroModel.Model.C19
+import DendroModel.Model.C19Ext
 /-! C19 — property theorems about the model the driver `drv_c19` executes (`DendroModel/Model/C19.lean`).
 Only property theorems live directly in `namespace DendroModel.C19` of this file; helper lemmas are in
 `DendroModel.C19.Aux`.  A row is observed through `get? t rows` (`none` = the taxon has no sequence).
@@ -1373,3 +1373,993 @@ theorem concat_empty_namespace_refused (m0 : Matrix) (rest : List Matrix) (ht : 
         · split at he <;> cases he
 
 end DendroModel.C19
+
+/-! ## extension round: subsets, sizes, column selection with index shift, reading-and-concatenating, loop measures -/
+namespace DendroModel.C19.Aux
+open DendroModel.C19
+
+theorem mem_insertAsc (x a : Nat) (l : List Nat) : a ∈ insertAsc x l ↔ a = x ∨ a ∈ l := by
+  induction l with
+  | nil => simp [insertAsc]
+  | cons y ys ih =>
+    simp only [insertAsc]
+    split
+    · simp
+    · split
+      · next h => subst h; simp
+      · simp only [List.mem_cons, ih]
+        constructor
+        · rintro (h | h | h) <;> simp [h]
+        · rintro (h | h | h) <;> simp [h]
+
+/-- strictly ascending -/
+def Asc : List Nat → Prop
+  | [] => True
+  | [_] => True
+  | a :: b :: r => a < b ∧ Asc (b :: r)
+
+theorem asc_insertAsc (x : Nat) (l : List Nat) (h : Asc l) : Asc (insertAsc x l) := by
+  induction l with
+  | nil => simp [insertAsc, Asc]
+  | cons y ys ih =>
+    simp only [insertAsc]
+    split
+    · next hlt => exact ⟨hlt, h⟩
+    · split
+      · exact h
+      · next h1 h2 =>
+        have hyx : y < x := by omega
+        cases ys with
+        | nil => simp [insertAsc, Asc, hyx]
+        | cons z zs =>
+          have hz := ih h.2
+          simp only [insertAsc] at hz ⊢
+          split
+          · next hxz => exact ⟨hyx, by simpa [hxz] using hz⟩
+          · split
+            · next hxz' hxz => simpa [hxz', hxz] using h
+            · next hxz' hxz =>
+              refine ⟨h.1, ?_⟩
+              simpa [hxz', hxz] using hz
+
+end DendroModel.C19.Aux
+
+namespace DendroModel.C19.Aux
+open DendroModel.C19
+
+theorem findSub_append_single (subs : List (Label × List Nat)) (lab lab' : Label) (idx : List Nat)
+    (hfree : hasSub subs lab = false) :
+    findSub (subs ++ [(lab, idx)]) lab' =
+      if lower lab = lower lab' then some idx else findSub subs lab' := by
+  simp only [findSub, List.find?_append]
+  by_cases h : lower lab = lower lab'
+  · have hnone : subs.find? (fun s => lower s.1 == lower lab') = none := by
+      simp only [List.find?_eq_none, beq_iff_eq]
+      simp only [hasSub, List.any_eq_false, beq_iff_eq] at hfree
+      intro x hx heq
+      exact hfree x hx (by rw [heq, h])
+    simp [hnone, h]
+  · have hsingle : [(lab, idx)].find? (fun s => lower s.1 == lower lab') = none := by
+      simp [h]
+    simp [hsingle, h]
+
+theorem exportRow_congr (a b : List Int) (h : ∀ i, inIdx a i = inIdx b i) : exportRow a = exportRow b := by
+  funext v
+  have : inIdx a = inIdx b := funext h
+  simp [exportRow, this]
+
+theorem attained_foldl_max (taxa : List Taxon) (rs : Rows) (m0 : Nat) :
+    let res := taxa.foldl (fun mx t => match get? t rs with
+      | some r => if r.length > mx then r.length else mx
+      | none => mx) m0
+    res = m0 ∨ ∃ t ∈ taxa, ∃ r, get? t rs = some r ∧ r.length = res := by
+  induction taxa generalizing m0 with
+  | nil => simp
+  | cons a as ih =>
+    simp only [List.foldl_cons]
+    rcases ih (match get? a rs with
+      | some r => if r.length > m0 then r.length else m0
+      | none => m0) with h | ⟨t, ht, r, hg, hl⟩
+    · cases hg : get? a rs with
+      | none => left; simpa [hg] using h
+      | some r =>
+        simp only [hg] at h ⊢
+        by_cases hgt : r.length > m0
+        · simp only [hgt, if_true] at h ⊢
+          right; exact ⟨a, by simp, r, hg, h.symm⟩
+        · left; simpa [hgt] using h
+    · right; exact ⟨t, by simp [ht], r, hg, hl⟩
+
+end DendroModel.C19.Aux
+
+namespace DendroModel.C19
+open DendroModel.C19.Aux
+
+/-- `set(character_indices)`: the stored indices are exactly the given ones … -/
+theorem mem_idxSet (idx : List Nat) (i : Nat) : i ∈ idxSet idx ↔ i ∈ idx := by
+  induction idx with
+  | nil => simp [idxSet]
+  | cons x xs ih =>
+    simp only [idxSet, List.foldr_cons] at ih ⊢
+    rw [mem_insertAsc, ih]
+    simp
+
+/-- … listed strictly ascending (so without repetition) -/
+theorem idxSet_ascending (idx : List Nat) : Asc (idxSet idx) := by
+  induction idx with
+  | nil => simp [idxSet, Asc]
+  | cons x xs ih => exact asc_insertAsc x _ ih
+
+/-- `new_character_subset`: a name that is taken (up to case) is refused with `ValueError`; a free name is appended
+    after the existing subsets with `set(indices)`, and nothing else of the matrix changes -/
+theorem newSubset_spec (m : Matrix) (lab : Label) (idx : List Nat) :
+    (hasSub m.subs lab = true ∧ newSubset m lab idx = .error .valueError) ∨
+    (hasSub m.subs lab = false ∧ ∃ r, newSubset m lab idx = .ok r ∧ r.subs = m.subs ++ [(lab, idxSet idx)] ∧
+      r.rows = m.rows ∧ r.ns = m.ns ∧ r.taxa = m.taxa ∧ r.label = m.label) := by
+  by_cases h : hasSub m.subs lab = true
+  · left; exact ⟨h, by simp [newSubset, h]⟩
+  · right
+    have h' : hasSub m.subs lab = false := by simpa using h
+    exact ⟨h', { m with subs := m.subs ++ [(lab, idxSet idx)] }, by simp [newSubset, h'], rfl, rfl, rfl, rfl, rfl⟩
+
+/-- after a successful `new_character_subset` the new name (in any case) looks up the new index set, every other name
+    looks up what it did before, and the names stay pairwise distinct up to case -/
+theorem newSubset_lookup (m r : Matrix) (lab : Label) (idx : List Nat) (h : newSubset m lab idx = .ok r)
+    (lab' : Label) :
+    findSub r.subs lab' = (if lower lab = lower lab' then some (idxSet idx) else findSub m.subs lab') ∧
+    ((m.subs.map (fun s => lower s.1)).Nodup → (r.subs.map (fun s => lower s.1)).Nodup) := by
+  rcases newSubset_spec m lab idx with ⟨_, he⟩ | ⟨hfree, r', hr, hsubs, _⟩
+  · rw [he] at h; cases h
+  · rw [hr] at h
+    simp only [Except.ok.injEq] at h
+    subst h
+    rw [hsubs]
+    refine ⟨findSub_append_single m.subs lab lab' (idxSet idx) hfree, ?_⟩
+    intro hnd
+    simp only [List.map_append, List.map_cons, List.map_nil]
+    rw [List.nodup_append]
+    refine ⟨hnd, by simp, ?_⟩
+    intro a ha b hb
+    simp only [List.mem_singleton] at hb
+    subst hb
+    simp only [hasSub, List.any_eq_false, beq_iff_eq] at hfree
+    simp only [List.mem_map] at ha
+    obtain ⟨x, hx, hxa⟩ := ha
+    intro heq
+    exact hfree x hx (by rw [hxa, heq])
+
+/-- (b) a subset defined with `new_character_subset` and exported by name (any case) selects exactly the columns it was
+    given: order, repetitions in the given index list do not matter -/
+theorem newSubset_export (m r : Matrix) (lab lab' : Label) (idx : List Nat) (h : newSubset m lab idx = .ok r)
+    (hcase : lower lab = lower lab') :
+    exportSub r lab' = .ok (exportIdx r (idx.map Int.ofNat)) := by
+  have hl := (newSubset_lookup m r lab idx h lab').1
+  simp only [hcase, if_true] at hl
+  have hc : exportRow ((idxSet idx).map Int.ofNat) = exportRow (idx.map Int.ofNat) := by
+    apply exportRow_congr
+    intro i
+    have : ((i : Int) ∈ (idxSet idx).map Int.ofNat) ↔ ((i : Int) ∈ idx.map Int.ofNat) := by
+      simp only [List.mem_map, Int.ofNat_eq_natCast, Int.natCast_inj, exists_eq_right]
+      exact mem_idxSet idx i
+    simp only [inIdx, List.contains_eq_mem, this]
+  simp [exportSub, hl, exportIdx, hc]
+
+/-- `max_sequence_size` is the maximum: an upper bound of every row of a namespace taxon, and attained (or 0) -/
+theorem maxSeqSize_spec (m : Matrix) :
+    (∀ t ∈ m.taxa, ∀ r, get? t m.rows = some r → r.length ≤ maxSeqSize m) ∧
+    (maxSeqSize m = 0 ∨ ∃ t ∈ m.taxa, ∃ r, get? t m.rows = some r ∧ r.length = maxSeqSize m) := by
+  constructor
+  · intro t ht r hg
+    unfold maxSeqSize maxLen
+    exact length_le_foldl_max m.taxa m.rows t r 0 ht hg
+  · unfold maxSeqSize maxLen
+    exact attained_foldl_max m.taxa m.rows 0
+
+/-- (c) `fill` to a size that a row already reaches leaves that row as it is (rows are never shortened) -/
+theorem padLoop_id (value : Cell) (size : Nat) (append : Bool) (v : Row) (h : size ≤ v.length) :
+    padLoop value size append v = v := by
+  rw [padLoop_eq]
+  have : size - v.length = 0 := by omega
+  cases append <;> simp [this]
+
+end DendroModel.C19
+
+/-! ### column selection: reading the result by position (index shift) and contiguous spans -/
+namespace DendroModel.C19.Aux
+open DendroModel.C19
+
+/-- selection by one left-to-right pass, the column counter starting at `k` (specification) -/
+def selectFrom (keep : Nat → Bool) : Nat → Row → Row
+  | _, [] => []
+  | k, c :: cs => if keep k then c :: selectFrom keep (k + 1) cs else selectFrom keep (k + 1) cs
+
+theorem spec_eq_selectFrom (keep : Nat → Bool) (v : Row) (k : Nat) :
+    ((List.range' k v.length).filter keep).filterMap (fun i => v[i - k]?) = selectFrom keep k v := by
+  induction v generalizing k with
+  | nil => simp [selectFrom]
+  | cons c cs ih =>
+    have hshift : ((List.range' (k + 1) cs.length).filter keep).filterMap (fun i => (c :: cs)[i - k]?)
+        = ((List.range' (k + 1) cs.length).filter keep).filterMap (fun i => cs[i - (k + 1)]?) := by
+      apply filterMap_congr_mem
+      intro i hi
+      have hi' := (List.mem_filter.mp hi).1
+      simp only [List.mem_range'_1] at hi'
+      have : i - k = (i - (k + 1)) + 1 := by omega
+      rw [this, List.getElem?_cons_succ]
+    simp only [List.length_cons, List.range'_succ, selectFrom]
+    by_cases hk : keep k = true
+    · simp only [List.filter_cons, hk, if_true, List.filterMap_cons, Nat.sub_self, List.getElem?_cons_zero]
+      rw [hshift, ih]
+    · simp only [List.filter_cons, hk, Bool.false_eq_true, if_false]
+      rw [hshift, ih]
+
+theorem exportRow_eq_selectFrom (idx : List Int) (v : Row) : exportRow idx v = selectFrom (inIdx idx) 0 v := by
+  rw [export_row_spec, ← spec_eq_selectFrom (inIdx idx) v 0, List.range_eq_range']
+  simp
+
+theorem selectFrom_span_ge (off w : Nat) (v : Row) (k : Nat) (hk : off ≤ k) :
+    selectFrom (fun i => decide (off ≤ i ∧ i < off + w)) k v = v.take (off + w - k) := by
+  induction v generalizing k with
+  | nil => simp [selectFrom]
+  | cons c cs ih =>
+    simp only [selectFrom]
+    by_cases hlt : k < off + w
+    · have : off + w - k = (off + w - (k + 1)) + 1 := by omega
+      simp only [hk, hlt, and_self, decide_true, if_true, this, List.take_succ_cons]
+      rw [ih (k + 1) (by omega)]
+    · have : off + w - k = 0 := by omega
+      simp only [hlt, and_false, decide_false, this, List.take_zero]
+      rw [ih (k + 1) (by omega)]
+      have : off + w - (k + 1) = 0 := by omega
+      simp [this]
+
+theorem selectFrom_span_le (off w : Nat) (v : Row) (k : Nat) (hk : k ≤ off) :
+    selectFrom (fun i => decide (off ≤ i ∧ i < off + w)) k v = (v.drop (off - k)).take w := by
+  induction v generalizing k with
+  | nil => simp [selectFrom]
+  | cons c cs ih =>
+    by_cases heq : k = off
+    · subst heq
+      rw [selectFrom_span_ge k w (c :: cs) k (Nat.le_refl _)]
+      simp
+    · have hlt : k < off := by omega
+      have : off - k = (off - (k + 1)) + 1 := by omega
+      simp only [selectFrom, this, List.drop_succ_cons]
+      have hnot : ¬ off ≤ k := by omega
+      simp only [hnot, false_and, decide_false]
+      exact ih (k + 1) (by omega)
+
+theorem inIdx_span (off w i : Nat) :
+    inIdx ((List.range' off w).map Int.ofNat) i = decide (off ≤ i ∧ i < off + w) := by
+  simp only [inIdx, List.contains_eq_mem, List.mem_map, Int.ofNat_eq_natCast, Int.natCast_inj, exists_eq_right,
+    List.mem_range'_1]
+
+theorem selectFrom_length_le (keep : Nat → Bool) (k : Nat) (v : Row) : (selectFrom keep k v).length ≤ v.length := by
+  induction v generalizing k with
+  | nil => simp [selectFrom]
+  | cons c cs ih =>
+    simp only [selectFrom]
+    split
+    · simp only [List.length_cons]; have := ih (k + 1); omega
+    · simp only [List.length_cons]; have := ih (k + 1); omega
+
+/-- reading the selection by position: the column at source position `k + j` that is kept lands at the position that
+    counts the kept columns before it -/
+theorem selectFrom_getElem (keep : Nat → Bool) (v : Row) (k j : Nat) (hj : j < v.length) (hkeep : keep (k + j) = true) :
+    (selectFrom keep k v)[((List.range' k j).filter keep).length]? = v[j]? := by
+  induction v generalizing k j with
+  | nil => simp at hj
+  | cons c cs ih =>
+    cases j with
+    | zero => simp only [Nat.add_zero] at hkeep; simp [selectFrom, hkeep]
+    | succ j =>
+      have hj' : j < cs.length := by simpa using hj
+      have hk' : keep (k + 1 + j) = true := by rw [← hkeep]; congr 1; omega
+      have := ih (k + 1) j hj' hk'
+      simp only [List.range'_succ, List.getElem?_cons_succ, selectFrom]
+      by_cases hk : keep k = true
+      · simp only [hk, if_true, List.filter_cons, List.length_cons, List.getElem?_cons_succ]
+        exact this
+      · simp only [hk, List.filter_cons]
+        exact this
+
+end DendroModel.C19.Aux
+
+namespace DendroModel.C19
+open DendroModel.C19.Aux
+
+/-- (b) the exported row only depends on WHICH columns are named: order, repetition, negative and out-of-range entries
+    of the index list are immaterial -/
+theorem export_depends_on_set (a b : List Int) (h : ∀ i : Nat, ((i : Int) ∈ a ↔ (i : Int) ∈ b)) (v : Row) :
+    exportRow a v = exportRow b v := by
+  rw [exportRow_congr a b]
+  intro i
+  simp only [inIdx, List.contains_eq_mem, h i]
+
+/-- (b) the deletion loop equals one left-to-right pass that keeps the named columns: ascending order is explicit -/
+theorem export_one_pass (idx : List Int) (v : Row) : exportRow idx v = selectFrom (inIdx idx) 0 v :=
+  exportRow_eq_selectFrom idx v
+
+/-- (b) index shift: a selected column `j` of the source is found in the exported row at position
+    "number of selected columns before `j`" — and nothing is longer than the source -/
+theorem export_index_shift (idx : List Int) (v : Row) (j : Nat) (hj : j < v.length) (hsel : inIdx idx j = true) :
+    (exportRow idx v)[((List.range j).filter (inIdx idx)).length]? = v[j]? ∧
+    (exportRow idx v).length ≤ v.length := by
+  rw [exportRow_eq_selectFrom]
+  refine ⟨?_, selectFrom_length_le _ _ _⟩
+  have := selectFrom_getElem (inIdx idx) v 0 j hj (by simpa using hsel)
+  simpa [List.range_eq_range'] using this
+
+/-- (b) exporting a contiguous span `[off, off+w)` (what `concatenate` records per source matrix) cuts exactly that
+    slice out of every row -/
+theorem export_span (off w : Nat) (v : Row) :
+    exportRow ((List.range' off w).map Int.ofNat) v = (v.drop off).take w := by
+  rw [exportRow_eq_selectFrom]
+  have hk : inIdx ((List.range' off w).map Int.ofNat) = fun i => decide (off ≤ i ∧ i < off + w) :=
+    funext (inIdx_span off w)
+  rw [hk, selectFrom_span_le off w v 0 (Nat.zero_le _)]
+  simp
+
+/-- (a)+(b) round trip: exporting from a concatenation the subset recorded for a source matrix gives back that
+    matrix's rows, for every taxon of the namespace -/
+theorem concat_export_roundtrip (pre post : List Matrix) (m r : Matrix)
+    (h : concatenate (pre ++ m :: post) = .ok r)
+    (hnd : ∀ x ∈ pre ++ m :: post, (keys x.rows).Nodup)
+    (hin : ∀ x ∈ pre ++ m :: post, ∀ kv ∈ x.rows, kv.1 ∈ r.taxa)
+    (htaxa : r.taxa.Nodup)
+    (hall : ∀ t ∈ r.taxa, ∀ x ∈ pre ++ m :: post, has t x.rows = true) :
+    ∃ name idx e, r.subs[pre.length]? = some (name, idx) ∧ exportSub r name = .ok e ∧
+      ∀ t ∈ r.taxa, rowOf t e.rows = rowOf t m.rows := by
+  have hsubs := concat_subsets _ r h
+  have hspan : (r.subs.map Prod.snd)[pre.length]?
+      = some (List.range' (pre.map (fun x => vectorSize x.rows)).sum (vectorSize m.rows)) := by
+    rw [hsubs]
+    simp only [List.map_append, List.map_cons]
+    have := spans_append 0 (pre.map (fun x => vectorSize x.rows)) (vectorSize m.rows) (post.map (fun x => vectorSize x.rows))
+    simpa using this
+  simp only [List.getElem?_map] at hspan
+  cases hget : r.subs[pre.length]? with
+  | none => simp [hget] at hspan
+  | some entry =>
+    obtain ⟨name, idx⟩ := entry
+    simp only [hget, Option.map_some, Option.some.injEq] at hspan
+    subst hspan
+    have hmem : (name, List.range' (pre.map (fun x => vectorSize x.rows)).sum (vectorSize m.rows)) ∈ r.subs :=
+      List.mem_of_getElem? hget
+    have hexp := exportSub_caseless r name name _ hmem rfl (concat_names_distinct _ r h)
+    refine ⟨name, _, _, rfl, hexp, ?_⟩
+    intro t ht
+    have hcov := (concat_subset_covers pre post m r h hnd hin t ht (hall t ht)).2
+    have hrow := (export_spec r htaxa
+      ((List.range' (pre.map (fun x => vectorSize x.rows)).sum (vectorSize m.rows)).map Int.ofNat) t ht).1
+    have hempty : ∀ ix, exportRow ix [] = [] := by intro ix; simp [exportRow, delLoop]
+    have : rowOf t (exportIdx r ((List.range' (pre.map (fun x => vectorSize x.rows)).sum
+        (vectorSize m.rows)).map Int.ofNat)).rows
+        = exportRow ((List.range' (pre.map (fun x => vectorSize x.rows)).sum (vectorSize m.rows)).map Int.ofNat)
+            (rowOf t r.rows) := by
+      simp only [rowOf, hrow]
+      cases get? t r.rows <;> simp [hempty]
+    rw [this, export_span, hcov]
+
+end DendroModel.C19
+
+/-! ### reading and concatenating: `concatenate_from_streams` / `concatenate_from_paths` over an abstract reader -/
+namespace DendroModel.C19.Aux
+open DendroModel.C19
+
+theorem parseLoop_ok {σ : Type} (parse : σ → Option Matrix) (streams : List σ) (ms : List Matrix)
+    (h : streams.map parse = ms.map some) (acc : List Matrix) (i : Nat) :
+    parseLoop parse acc i streams = .ok (acc ++ ms) := by
+  induction streams generalizing ms acc i with
+  | nil =>
+    cases ms with
+    | nil => simp [parseLoop]
+    | cons a as => simp at h
+  | cons s ss ih =>
+    cases ms with
+    | nil => simp at h
+    | cons a as =>
+      simp only [List.map_cons, List.cons.injEq] at h
+      simp only [parseLoop, h.1]
+      rw [ih as h.2]
+      simp
+
+theorem parseLoop_err {σ : Type} (parse : σ → Option Matrix) (pre : List σ) (s : σ) (post : List σ) (ms : List Matrix)
+    (hpre : pre.map parse = ms.map some) (hs : parse s = none) (acc : List Matrix) (i : Nat) :
+    parseLoop parse acc i (pre ++ s :: post) = .error (.parseError (i + pre.length)) := by
+  induction pre generalizing ms acc i with
+  | nil => simp [parseLoop, hs]
+  | cons p ps ih =>
+    cases ms with
+    | nil => simp at hpre
+    | cons a as =>
+      simp only [List.map_cons, List.cons.injEq] at hpre
+      simp only [List.cons_append, parseLoop, hpre.1, List.length_cons]
+      rw [ih as hpre.2]
+      congr 2
+      omega
+
+theorem openLoop_ok {π σ : Type} (opn : π → Option σ) (paths : List π) (streams : List σ)
+    (h : paths.map opn = streams.map some) (acc : List σ) (i : Nat) :
+    openLoop opn acc i paths = .ok (acc ++ streams) := by
+  induction paths generalizing streams acc i with
+  | nil =>
+    cases streams with
+    | nil => simp [openLoop]
+    | cons a as => simp at h
+  | cons s ss ih =>
+    cases streams with
+    | nil => simp at h
+    | cons a as =>
+      simp only [List.map_cons, List.cons.injEq] at h
+      simp only [openLoop, h.1]
+      rw [ih as h.2]
+      simp
+
+theorem openLoop_err {π σ : Type} (opn : π → Option σ) (pre : List π) (p : π) (post : List π) (ss : List σ)
+    (hpre : pre.map opn = ss.map some) (hp : opn p = none) (acc : List σ) (i : Nat) :
+    openLoop opn acc i (pre ++ p :: post) = .error (.openError (i + pre.length)) := by
+  induction pre generalizing ss acc i with
+  | nil => simp [openLoop, hp]
+  | cons q qs ih =>
+    cases ss with
+    | nil => simp at hpre
+    | cons a as =>
+      simp only [List.map_cons, List.cons.injEq] at hpre
+      simp only [List.cons_append, openLoop, hpre.1, List.length_cons]
+      rw [ih as hpre.2]
+      congr 2
+      omega
+
+/-- `n` rounds of a loop body -/
+def iter {α : Type} (f : α → α) : Nat → α → α
+  | 0, a => a
+  | n + 1, a => iter f n (f a)
+
+end DendroModel.C19.Aux
+
+namespace DendroModel.C19
+open DendroModel.C19.Aux
+
+/-- (a) `concatenate_from_streams` IS `concatenate` of the matrices the reader delivers, in stream order — for any
+    reader: same result, same refusal -/
+theorem fromStreams_eq_concatenate {σ : Type} (parse : σ → Option Matrix) (streams : List σ) (ms : List Matrix)
+    (h : streams.map parse = ms.map some) :
+    concatFromStreams parse streams = match concatenate ms with
+      | .ok r => .ok r
+      | .error e => .error (.concat e) := by
+  simp only [concatFromStreams, parseLoop_ok parse streams ms h [] 0, List.nil_append]
+  cases concatenate ms <;> rfl
+
+/-- the first stream the reader rejects stops the call with that reader error; nothing is concatenated, whatever the
+    later streams hold -/
+theorem fromStreams_reader_error {σ : Type} (parse : σ → Option Matrix) (pre : List σ) (s : σ) (post : List σ)
+    (ms : List Matrix) (hpre : pre.map parse = ms.map some) (hs : parse s = none) :
+    concatFromStreams parse (pre ++ s :: post) = .error (.parseError pre.length) := by
+  simp [concatFromStreams, parseLoop_err parse pre s post ms hpre hs [] 0]
+
+/-- `concatenate_from_paths` is `concatenate_from_streams` of the opened files, in path order -/
+theorem fromPaths_eq_fromStreams {π σ : Type} (opn : π → Option σ) (parse : σ → Option Matrix) (paths : List π)
+    (streams : List σ) (h : paths.map opn = streams.map some) :
+    concatFromPaths opn parse paths = concatFromStreams parse streams := by
+  simp [concatFromPaths, openLoop_ok opn paths streams h [] 0]
+
+/-- every path is opened before any is read: the first path that cannot be opened stops the call, even when an
+    earlier file is unreadable -/
+theorem fromPaths_open_error {π σ : Type} (opn : π → Option σ) (parse : σ → Option Matrix) (pre : List π) (p : π)
+    (post : List π) (ss : List σ) (hpre : pre.map opn = ss.map some) (hp : opn p = none) :
+    concatFromPaths opn parse (pre ++ p :: post) = .error (.openError pre.length) := by
+  simp [concatFromPaths, openLoop_err opn pre p post ss hpre hp [] 0]
+
+/-- (a) hence the statement's clauses transfer: rows of a successful `concatenate_from_streams` are the per-taxon
+    concatenation of the parsed matrices' rows in stream order, with the subsets of `concatenate` -/
+theorem fromStreams_rows {σ : Type} (parse : σ → Option Matrix) (streams : List σ) (ms : List Matrix) (r : Matrix)
+    (hp : streams.map parse = ms.map some) (h : concatFromStreams parse streams = .ok r)
+    (hnd : ∀ m ∈ ms, (keys m.rows).Nodup) (t : Taxon) :
+    rowOf t r.rows = (ms.map (fun m => rowOf t m.rows)).flatten ∧ r.subs = namedSpans [] 0 0 ms := by
+  rw [fromStreams_eq_concatenate parse streams ms hp] at h
+  cases hc : concatenate ms with
+  | error e => simp [hc] at h
+  | ok r' =>
+    simp only [hc, Except.ok.injEq] at h
+    subst h
+    exact ⟨concat_rows ms r' hc hnd t, concat_subset_labels ms r' hc⟩
+
+/-! ### loop measures, explicitly -/
+
+/-- `fill`'s `while len(v) < size`: the measure `size - len(v)` drops by exactly one per round … -/
+theorem padLoop_measure_step (value : Cell) (size : Nat) (append : Bool) (v : Row) (h : v.length < size) :
+    size - (if append then v ++ [value] else value :: v).length + 1 = size - v.length := by
+  cases append <;> simp <;> omega
+
+/-- … so the loop body runs exactly `size - len(v)` times -/
+theorem padLoop_iterate (value : Cell) (size : Nat) (append : Bool) (v : Row) :
+    padLoop value size append v =
+      iter (fun w => if append then w ++ [value] else value :: w) (size - v.length) v := by
+  induction h : size - v.length generalizing v with
+  | zero =>
+    rw [padLoop]
+    have : ¬ v.length < size := by omega
+    simp [this, iter]
+  | succ n ih =>
+    rw [padLoop]
+    have hlt : v.length < size := by omega
+    simp only [hlt, if_true, iter]
+    apply ih
+    cases append <;> simp <;> omega
+
+/-- the free-name search of `concatenate`: its measure `pending` (subset keys with decimal suffix ≥ i) is at most the
+    number of subsets, drops at every taken candidate (`pending_decreases`), and bounds the number of probes: the
+    answer is candidate number `j` with `i ≤ j ≤ i + pending ≤ i + #subsets` -/
+theorem freeFrom_probes_bound (subs : List (Label × List Nat)) (base : Label) :
+    ∀ (n i : Nat), pending subs i = n →
+      ∃ j, freeFrom subs base i = cand base j ∧ i ≤ j ∧ j ≤ i + pending subs i ∧ pending subs i ≤ subs.length := by
+  intro n
+  induction n using Nat.strongRecOn with
+  | _ n ih =>
+    intro i hn
+    have hle : pending subs i ≤ subs.length := by
+      unfold pending; exact List.length_filter_le _ _
+    rw [freeFrom]
+    split
+    · next h =>
+      have hdec := pending_decreases subs base i h
+      obtain ⟨j, hj, h1, h2, _⟩ := ih _ (by omega) (i + 1) rfl
+      exact ⟨j, hj, by omega, by omega, hle⟩
+    · exact ⟨i, rfl, Nat.le_refl _, by omega, hle⟩
+
+/-- `export_character_indices`' deletion loop visits each column exactly once: `n` rounds for `n` columns, and the
+    row never grows -/
+theorem delLoop_length_le (keep : Nat → Bool) (n : Nat) (v : Row) : (delLoop keep n v).length ≤ v.length := by
+  induction n generalizing v with
+  | zero => simp [delLoop]
+  | succ n ih =>
+    simp only [delLoop]
+    split
+    · exact ih v
+    · refine Nat.le_trans (ih _) ?_
+      rw [List.length_eraseIdx]
+      split <;> omega
+
+end DendroModel.C19
+
+/-! ### non-vacuity of the extension-round theorems -/
+namespace DendroModel.C19.Aux
+open DendroModel.C19
+
+example : ∃ r, newSubset mAB ['y'] [3, 1, 1] = .ok r ∧ r.subs.map Prod.snd = [[0, 1], [2], [1, 3]] := ⟨_, rfl, by decide⟩
+example : newSubset mAB ['x', '_', '0', '0', '2'] [0] = .error .valueError := rfl
+example : hasSub mAB.subs ['y'] = false ∧ lower ['Y'] = lower ['y'] := by decide
+example : (2 : Nat) < [10, 11, 12].length ∧ inIdx [2, 0] 2 = true := by decide
+example : (exportRow [2, 0] [10, 11, 12])[1]? = some 12 := by decide
+example : ∀ i : Nat, ((i : Int) ∈ [2, 0, 0, -1] ↔ (i : Int) ∈ [0, 2]) := by
+  intro i; simp; omega
+example : concatFromStreams (fun o : Option Matrix => o) [some mA, some mB] = .ok mAB := by
+  rw [fromStreams_eq_concatenate (fun o : Option Matrix => o) [some mA, some mB] [mA, mB] rfl, ex_concat]
+example : concatFromStreams (fun o : Option Matrix => o) [some mA, none, some mB] = .error (.parseError 1) :=
+  fromStreams_reader_error _ [some mA] none [some mB] [mA] rfl rfl
+example : concatFromPaths (fun p : Option (Option Matrix) => p) (fun o => o) [some (some mA), none]
+    = .error (.openError 1) :=
+  fromPaths_open_error _ _ [some (some mA)] none [] [some mA] rfl rfl
+example : ∃ name idx e, mAB.subs[1]? = some (name, idx) ∧ exportSub mAB name = .ok e ∧
+    ∀ t ∈ mAB.taxa, rowOf t e.rows = rowOf t mB.rows :=
+  concat_export_roundtrip [mA] [] mB mAB ex_concat (by decide) (by decide) (by decide) (by decide)
+example : pending [(['x', '_', '0', '0', '2'], [0])] 2 = 1 := by decide
+
+end DendroModel.C19.Aux
+
+/-! ### element access (`matrix[taxon]` reads, writes, deletes), iteration order, and the namespace invariant -/
+namespace DendroModel.C19.Aux
+open DendroModel.C19
+
+theorem mem_keys_set (t u : Taxon) (r : Row) (rs : Rows) (h : u ∈ keys (set t r rs)) : u = t ∨ u ∈ keys rs := by
+  rw [keys_set] at h
+  split at h
+  · exact Or.inr h
+  · simp only [List.mem_append, List.mem_singleton] at h
+    rcases h with h | h
+    · exact Or.inr h
+    · exact Or.inl h
+
+theorem mem_keys_del (t u : Taxon) (rs : Rows) (h : u ∈ keys (del t rs)) : u ∈ keys rs := by
+  simp only [keys, del, List.mem_map] at h ⊢
+  obtain ⟨x, hx, hxu⟩ := h
+  exact ⟨x, (List.mem_filter.mp hx).1, hxu⟩
+
+theorem keysP_foldl {α} (P : Taxon → Prop) (step : Rows → α → Rows) (l : List α)
+    (hstep : ∀ acc a, a ∈ l → (∀ k ∈ keys acc, P k) → ∀ k ∈ keys (step acc a), P k)
+    (rs : Rows) (h : ∀ k ∈ keys rs, P k) : ∀ k ∈ keys (l.foldl step rs), P k := by
+  induction l generalizing rs with
+  | nil => exact h
+  | cons a as ih =>
+    exact ih (fun acc b hb => hstep acc b (by simp [hb])) _ (hstep rs a (by simp) h)
+
+theorem items_cons_present (a : Taxon) (as : List Taxon) (rs : Rows) :
+    items (a :: as) rs = (match get? a rs with
+      | some r => [(a, r)]
+      | none => []) ++ items as rs := by
+  simp only [items, List.filterMap_cons]
+  cases get? a rs <;> simp
+
+end DendroModel.C19.Aux
+
+namespace DendroModel.C19
+open DendroModel.C19.Aux
+
+/-- `matrix[taxon]` — the channel through which sequences are observed: it returns the taxon's row; when the taxon has
+    no row yet it CREATES an empty one (the only change), provided the taxon is in the namespace, else `ValueError` -/
+theorem getItem_spec (m : Matrix) (t : Taxon) :
+    (∃ r, get? t m.rows = some r ∧ getItem m t = .ok (m, r)) ∨
+    (get? t m.rows = none ∧ t ∈ m.taxa ∧ ∃ m', getItem m t = .ok (m', []) ∧ get? t m'.rows = some [] ∧
+      (∀ u, u ≠ t → get? u m'.rows = get? u m.rows) ∧ m'.subs = m.subs ∧ m'.ns = m.ns ∧ m'.taxa = m.taxa) ∨
+    (get? t m.rows = none ∧ t ∉ m.taxa ∧ getItem m t = .error .valueError) := by
+  cases hg : get? t m.rows with
+  | some r => left; exact ⟨r, rfl, by simp [getItem, hg]⟩
+  | none =>
+    right
+    by_cases ht : t ∈ m.taxa
+    · left
+      refine ⟨rfl, ht, { m with rows := set t [] m.rows }, by simp [getItem, hg, ht], get?_set_self t [] m.rows, ?_, rfl, rfl, rfl⟩
+      intro u hu
+      exact get?_set_ne t u [] m.rows hu
+    · right; exact ⟨rfl, ht, by simp [getItem, hg, ht]⟩
+
+/-- observing twice is observing once: after `matrix[taxon]` succeeded, asking again returns the same row and changes
+    nothing any more -/
+theorem getItem_idempotent (m m' : Matrix) (t : Taxon) (r : Row) (h : getItem m t = .ok (m', r)) :
+    getItem m' t = .ok (m', r) ∧ r = rowOf t m.rows := by
+  rcases getItem_spec m t with ⟨r0, hg, he⟩ | ⟨hg, _, m1, he, hrow, _⟩ | ⟨_, _, he⟩
+  · rw [he] at h
+    simp only [Except.ok.injEq, Prod.mk.injEq] at h
+    obtain ⟨rfl, rfl⟩ := h
+    exact ⟨he, by simp [rowOf, hg]⟩
+  · rw [he] at h
+    simp only [Except.ok.injEq, Prod.mk.injEq] at h
+    obtain ⟨rfl, rfl⟩ := h
+    exact ⟨by simp [getItem, hrow], by simp [rowOf, hg]⟩
+  · rw [he] at h; cases h
+
+/-- `matrix[taxon] = values`: inside the namespace exactly that row is (re)placed, else `ValueError` -/
+theorem setItem_spec (m : Matrix) (t : Taxon) (row : Row) :
+    (t ∈ m.taxa ∧ ∃ m', setItem m t row = .ok m' ∧ get? t m'.rows = some row ∧
+      (∀ u, u ≠ t → get? u m'.rows = get? u m.rows) ∧ m'.subs = m.subs ∧ m'.ns = m.ns ∧ m'.taxa = m.taxa) ∨
+    (t ∉ m.taxa ∧ setItem m t row = .error .valueError) := by
+  by_cases ht : t ∈ m.taxa
+  · left
+    exact ⟨ht, { m with rows := set t row m.rows }, by simp [setItem, ht], get?_set_self t row m.rows,
+      fun u hu => get?_set_ne t u row m.rows hu, rfl, rfl, rfl⟩
+  · right; exact ⟨ht, by simp [setItem, ht]⟩
+
+/-- `new_sequence`: refuses a taxon that already has a row or is outside the namespace; else adds exactly that row -/
+theorem newSequence_spec (m : Matrix) (t : Taxon) (row : Row) :
+    (has t m.rows = false ∧ t ∈ m.taxa ∧ ∃ m', newSequence m t row = .ok m' ∧ get? t m'.rows = some row ∧
+      (∀ u, u ≠ t → get? u m'.rows = get? u m.rows)) ∨
+    ((has t m.rows = true ∨ t ∉ m.taxa) ∧ newSequence m t row = .error .valueError) := by
+  by_cases hh : has t m.rows = true
+  · right; exact ⟨Or.inl hh, by simp [newSequence, hh]⟩
+  · have hh' : has t m.rows = false := by simpa using hh
+    by_cases ht : t ∈ m.taxa
+    · left
+      exact ⟨hh', ht, { m with rows := set t row m.rows }, by simp [newSequence, hh', ht], get?_set_self t row m.rows,
+        fun u hu => get?_set_ne t u row m.rows hu⟩
+    · right; exact ⟨Or.inr ht, by simp [newSequence, hh', ht]⟩
+
+/-- `del matrix[taxon]`: removes exactly that row; `KeyError` when there is none -/
+theorem delItem_spec (m : Matrix) (t : Taxon) :
+    (has t m.rows = true ∧ ∃ m', delItem m t = .ok m' ∧ get? t m'.rows = none ∧
+      (∀ u, u ≠ t → get? u m'.rows = get? u m.rows)) ∨
+    (has t m.rows = false ∧ delItem m t = .error .keyError) := by
+  by_cases hh : has t m.rows = true
+  · left
+    exact ⟨hh, { m with rows := del t m.rows }, by simp [delItem, hh], get?_del_self t m.rows,
+      fun u hu => get?_del_ne t u m.rows hu⟩
+  · right; exact ⟨by simpa using hh, by simp [delItem, hh]⟩
+
+/-- `items()` / iteration: exactly the namespace taxa that have a row, in namespace order, each with its row -/
+theorem itemsOf_spec (m : Matrix) :
+    (itemsOf m).map Prod.fst = m.taxa.filter (fun t => has t m.rows) ∧
+    ∀ p ∈ itemsOf m, get? p.1 m.rows = some p.2 := by
+  unfold itemsOf
+  generalize m.taxa = taxa
+  induction taxa with
+  | nil => simp [items]
+  | cons a as ih =>
+    rw [items_cons_present]
+    cases hg : get? a m.rows with
+    | none =>
+      simp only [List.nil_append, List.filter_cons, has_eq, hg, Option.isSome_none, Bool.false_eq_true, if_false]
+      exact ih
+    | some r =>
+      simp only [List.singleton_append, List.map_cons, List.filter_cons, has_eq, hg, Option.isSome_some, if_true,
+        List.mem_cons, forall_eq_or_imp, ih.1, true_and]
+      exact ih.2
+
+/-- "all sequences of these operations", second invariant: every operation keeps the rows keyed by taxa for which a
+    predicate `P` holds (take `P := (· ∈ namespace)`: no row ever belongs to a taxon outside the namespace), given that
+    the rows it takes from another matrix are -/
+theorem keys_invariant_preserved (P : Taxon → Prop) (s o : Rows) (hs : ∀ k ∈ keys s, P k) (ho : ∀ k ∈ keys o, P k) :
+    (∀ k ∈ keys (addSeqs s o), P k) ∧ (∀ k ∈ keys (replaceSeqs s o), P k) ∧ (∀ k ∈ keys (updateSeqs s o), P k) ∧
+    (∀ b, ∀ k ∈ keys (extendSeqs b s o), P k) ∧ (∀ k ∈ keys (extendMatrix s o), P k) ∧
+    (∀ taxa, (∀ k ∈ keys (removeSeqs taxa s).1, P k) ∧ (∀ k ∈ keys (discardSeqs taxa s), P k) ∧
+      (∀ k ∈ keys (keepSeqs taxa s), P k) ∧ (∀ f, ∀ k ∈ keys (mapNsRows f taxa s), P k) ∧
+      ((∀ t ∈ taxa, P t) → ∀ k ∈ keys (fillTaxa taxa s), P k)) := by
+  have hset : ∀ (acc : Rows) (t : Taxon) (r : Row), P t → (∀ k ∈ keys acc, P k) → ∀ k ∈ keys (set t r acc), P k := by
+    intro acc t r ht hacc k hk
+    rcases mem_keys_set t k r acc hk with h | h
+    · subst h; exact ht
+    · exact hacc k h
+  have hdel : ∀ (acc : Rows) (t : Taxon), (∀ k ∈ keys acc, P k) → ∀ k ∈ keys (del t acc), P k :=
+    fun acc t hacc k hk => hacc k (mem_keys_del t k acc hk)
+  have hkey : ∀ kv ∈ o, P kv.1 := fun kv hkv => ho kv.1 (by simp only [keys, List.mem_map]; exact ⟨kv, hkv, rfl⟩)
+  refine ⟨?_, ?_, ?_, ?_, ?_, ?_⟩
+  · exact keysP_foldl P _ o (fun acc a ha h => by
+      split
+      · exact h
+      · exact hset acc a.1 a.2 (hkey a ha) h) s hs
+  · exact keysP_foldl P _ o (fun acc a ha h => by
+      split
+      · exact hset acc a.1 a.2 (hkey a ha) h
+      · exact h) s hs
+  · exact keysP_foldl P _ o (fun acc a ha h => hset acc a.1 a.2 (hkey a ha) h) s hs
+  · intro b
+    exact keysP_foldl P _ o (fun acc a ha h => by
+      split
+      · split
+        · exact h
+        · exact hset acc a.1 a.2 (hkey a ha) h
+      · exact hset acc a.1 _ (hkey a ha) h) s hs
+  · exact keysP_foldl P _ o (fun acc a ha h => by
+      split
+      · exact hset acc a.1 _ (hkey a ha) h
+      · exact hset acc a.1 a.2 (hkey a ha) h) s hs
+  · intro taxa
+    refine ⟨?_, ?_, ?_, ?_, ?_⟩
+    · have : ∀ (ts : List Taxon) (rs : Rows), (∀ k ∈ keys rs, P k) → ∀ k ∈ keys (removeSeqs ts rs).1, P k := by
+        intro ts
+        induction ts with
+        | nil => intro rs h; exact h
+        | cons t ts ih =>
+          intro rs h
+          simp only [removeSeqs]
+          split
+          · exact ih _ (hdel rs t h)
+          · exact h
+      exact this taxa s hs
+    · exact keysP_foldl P _ taxa (fun acc a _ h => by
+        split
+        · exact hdel acc a h
+        · exact h) s hs
+    · exact keysP_foldl P _ (keys s) (fun acc a _ h => by
+        split
+        · exact h
+        · exact hdel acc a h) s hs
+    · intro f
+      exact keysP_foldl P _ taxa (fun acc a _ h => by
+        split
+        · next r hr => exact hset acc a _ (h a (mem_keys_of_get? a acc r hr)) h
+        · exact h) s hs
+    · intro htaxa
+      exact keysP_foldl P _ taxa (fun acc a ha h => by
+        split
+        · exact h
+        · exact hset acc a [] (htaxa a ha) h) s hs
+
+end DendroModel.C19
+
+namespace DendroModel.C19.Aux
+open DendroModel.C19
+
+example : ∃ m', getItem { mA with rows := [(0, [1])] } 1 = .ok (m', []) ∧ m'.rows = [(0, [1]), (1, [])] := ⟨_, rfl, rfl⟩
+example : getItem mA 7 = .error .valueError := rfl
+example : ∃ r, getItem mA 1 = .ok (mA, r) ∧ r = [3, 4] := ⟨_, rfl, rfl⟩
+example : setItem mA 7 [1] = .error .valueError ∧ delItem mA 7 = .error .keyError := ⟨rfl, rfl⟩
+example : itemsOf mB = [(0, [6]), (1, [5])] := by decide
+example : (∀ k ∈ keys mA.rows, k ∈ mA.taxa) ∧ (∀ k ∈ keys mB.rows, k ∈ mA.taxa) ∧ ∀ t ∈ mA.taxa, t ∈ mA.taxa := by decide
+
+end DendroModel.C19.Aux
+
+/-! ### well-formedness is an invariant of every operation, hence of every history -/
+namespace DendroModel.C19
+
+/-- a well-formed matrix: the row store is a dict (distinct keys) over taxa of its own namespace, and the subset names are
+    pairwise distinct up to case.  These are exactly the hypotheses the specifications above use. -/
+def WF (m : Matrix) : Prop :=
+  (keys m.rows).Nodup ∧ (∀ k ∈ keys m.rows, k ∈ m.taxa) ∧ (m.subs.map (fun s => lower s.1)).Nodup
+
+end DendroModel.C19
+
+namespace DendroModel.C19.Aux
+open DendroModel.C19
+
+theorem concatLoop_keys (P : Taxon → Prop) (ns : Nat) (taxa : List Taxon) (nseqs : Nat) :
+    ∀ (ms : List Matrix) (st st' : CState) (cidx : Nat),
+      concatLoop ns taxa nseqs st cidx ms = .ok st' → (∀ m ∈ ms, ∀ k ∈ keys m.rows, P k) →
+      (∀ k ∈ keys st.acc, P k) → ∀ k ∈ keys st'.acc, P k := by
+  intro ms
+  induction ms with
+  | nil => intro st st' cidx h _ hn; simp only [concatLoop, Except.ok.injEq] at h; subst h; exact hn
+  | cons cm rest ih =>
+    intro st st' cidx h hall hn
+    simp only [concatLoop] at h
+    split at h
+    · cases h
+    · next st1 hstep =>
+      have hacc := (concatStep_ok _ _ _ _ _ _ _ hstep).2.1
+      refine ih st1 st' _ h (fun m hm => hall m (by simp [hm])) ?_
+      rw [hacc]
+      exact (keys_invariant_preserved P st.acc cm.rows hn (hall cm (by simp))).2.2.2.2.1
+
+end DendroModel.C19.Aux
+
+namespace DendroModel.C19
+open DendroModel.C19.Aux
+
+/-- "for all sequences of these operations": every operation of the matrix alphabet takes well-formed matrices to a
+    well-formed matrix (whether it succeeds, refuses, or — `remove_sequences` — stops half-way), so along ANY history
+    the hypotheses of the specifications remain available.  `o` is the other matrix of a binary operation; matrices
+    over the same namespace see the same namespace members. -/
+theorem wf_preserved (m o : Matrix) (hm : WF m) (ho : WF o) (hns : o.taxa = m.taxa) :
+    (∀ f, f ∈ [addSeqs, replaceSeqs, updateSeqs, extendSeqs false, extendSeqs true, extendMatrix] →
+      ∀ r, rowOp f m o = .ok r → WF r) ∧
+    (∀ taxa, WF { m with rows := (removeSeqs taxa m.rows).1 } ∧ WF { m with rows := discardSeqs taxa m.rows } ∧
+      WF { m with rows := keepSeqs taxa m.rows }) ∧
+    (∀ v size app, WF { m with rows := fillRows v size app m.taxa m.rows } ∧
+      WF { m with rows := packRows v size app m.taxa m.rows }) ∧
+    WF { m with rows := fillTaxa m.taxa m.rows } ∧
+    (∀ idx, WF (exportIdx m idx)) ∧
+    (∀ lab idx r, newSubset m lab idx = .ok r → WF r) ∧
+    (∀ t m' r, getItem m t = .ok (m', r) → WF m') ∧
+    (∀ t row r, setItem m t row = .ok r → WF r) ∧
+    (∀ t row r, newSequence m t row = .ok r → WF r) ∧
+    (∀ t r, delItem m t = .ok r → WF r) ∧
+    WF (clearRows m) := by
+  obtain ⟨hm1, hm2, hm3⟩ := hm
+  obtain ⟨ho1, ho2, _⟩ := ho
+  have ho2' : ∀ k ∈ keys o.rows, k ∈ m.taxa := fun k hk => hns ▸ ho2 k hk
+  have nd := keys_nodup_preserved m.rows o.rows hm1
+  have inv := keys_invariant_preserved (· ∈ m.taxa) m.rows o.rows hm2 ho2'
+  have setwf : ∀ (t : Taxon) (row : Row), t ∈ m.taxa → WF { m with rows := set t row m.rows } := by
+    intro t row ht
+    refine ⟨nodup_set t row m.rows hm1, ?_, hm3⟩
+    intro k hk
+    rcases mem_keys_set t k row m.rows hk with h | h
+    · subst h; exact ht
+    · exact hm2 k h
+  refine ⟨?_, ?_, ?_, ?_, ?_, ?_, ?_, ?_, ?_, ?_, ?_⟩
+  · intro f hf r hr
+    have hr' : r = { m with rows := f m.rows o.rows } := by
+      simp only [rowOp] at hr
+      split at hr
+      · cases hr
+      · simp only [Except.ok.injEq] at hr; exact hr.symm
+    subst hr'
+    simp only [List.mem_cons, List.not_mem_nil, or_false] at hf
+    rcases hf with h | h | h | h | h | h <;> subst h
+    · exact ⟨nd.1, inv.1, hm3⟩
+    · exact ⟨nd.2.1, inv.2.1, hm3⟩
+    · exact ⟨nd.2.2.1, inv.2.2.1, hm3⟩
+    · exact ⟨nd.2.2.2.1 false, inv.2.2.2.1 false, hm3⟩
+    · exact ⟨nd.2.2.2.1 true, inv.2.2.2.1 true, hm3⟩
+    · exact ⟨nd.2.2.2.2.1, inv.2.2.2.2.1, hm3⟩
+  · intro taxa
+    have n := nd.2.2.2.2.2 taxa
+    have i := inv.2.2.2.2.2 taxa
+    exact ⟨⟨n.1, i.1, hm3⟩, ⟨n.2.1, i.2.1, hm3⟩, ⟨n.2.2.1, i.2.2.1, hm3⟩⟩
+  · intro v size app
+    have n := nd.2.2.2.2.2 m.taxa
+    have i := inv.2.2.2.2.2 m.taxa
+    refine ⟨⟨n.2.2.2.2 _, i.2.2.2.1 _, hm3⟩, ?_⟩
+    have nd2 := keys_nodup_preserved (fillTaxa m.taxa m.rows) o.rows n.2.2.2.1
+    have inv2 := keys_invariant_preserved (· ∈ m.taxa) (fillTaxa m.taxa m.rows) o.rows (i.2.2.2.2 (fun t ht => ht)) ho2'
+    exact ⟨(nd2.2.2.2.2.2 m.taxa).2.2.2.2 _, (inv2.2.2.2.2.2 m.taxa).2.2.2.1 _, hm3⟩
+  · have n := nd.2.2.2.2.2 m.taxa
+    have i := inv.2.2.2.2.2 m.taxa
+    exact ⟨n.2.2.2.1, i.2.2.2.2 (fun t ht => ht), hm3⟩
+  · intro idx
+    have n := nd.2.2.2.2.2 m.taxa
+    have i := inv.2.2.2.2.2 m.taxa
+    exact ⟨n.2.2.2.2 _, i.2.2.2.1 _, by simp [exportIdx]⟩
+  · intro lab idx r hr
+    have hl := (newSubset_lookup m r lab idx hr lab).2 hm3
+    rcases newSubset_spec m lab idx with ⟨_, he⟩ | ⟨_, r', hr', _, hrows, _, htaxa, _⟩
+    · rw [he] at hr; cases hr
+    · rw [hr'] at hr
+      simp only [Except.ok.injEq] at hr
+      subst hr
+      exact ⟨by rw [hrows]; exact hm1, by rw [hrows, htaxa]; exact hm2, hl⟩
+  · intro t m' r h
+    simp only [getItem] at h
+    split at h
+    · simp only [Except.ok.injEq, Prod.mk.injEq] at h
+      rw [← h.1]; exact ⟨hm1, hm2, hm3⟩
+    · split at h
+      · next ht =>
+        simp only [Except.ok.injEq, Prod.mk.injEq] at h
+        rw [← h.1]
+        exact setwf t [] (by simpa using ht)
+      · cases h
+  · intro t row r h
+    simp only [setItem] at h
+    split at h
+    · next ht =>
+      simp only [Except.ok.injEq] at h
+      rw [← h]; exact setwf t row (by simpa using ht)
+    · cases h
+  · intro t row r h
+    simp only [newSequence] at h
+    split at h
+    · cases h
+    · split at h
+      · next ht =>
+        simp only [Except.ok.injEq] at h
+        rw [← h]; exact setwf t row (by simpa using ht)
+      · cases h
+  · intro t r h
+    simp only [delItem] at h
+    split at h
+    · simp only [Except.ok.injEq] at h
+      rw [← h]
+      exact ⟨nodup_del t m.rows hm1, fun k hk => hm2 k (mem_keys_del t k m.rows hk), hm3⟩
+    · cases h
+  · exact ⟨by simp [clearRows, keys], by simp [clearRows, keys], hm3⟩
+
+/-- … and `concatenate` of well-formed matrices over one namespace returns a well-formed matrix -/
+theorem concat_wf (m0 : Matrix) (rest : List Matrix) (r : Matrix) (h : concatenate (m0 :: rest) = .ok r)
+    (hwf : ∀ m ∈ m0 :: rest, WF m ∧ m.taxa = m0.taxa) : WF r := by
+  refine ⟨concat_keys_nodup _ r h, ?_, concat_names_distinct _ r h⟩
+  simp only [concatenate] at h
+  split at h
+  · cases h
+  · next st hst =>
+    simp only [Except.ok.injEq] at h
+    subst h
+    exact concatLoop_keys (· ∈ m0.taxa) _ _ _ _ _ _ _ hst
+      (fun m hm k hk => (hwf m hm).2 ▸ (hwf m hm).1.2.1 k hk) (by simp [keys])
+
+end DendroModel.C19
+
+namespace DendroModel.C19.Aux
+open DendroModel.C19
+example : WF mA ∧ WF mB ∧ mB.taxa = mA.taxa := by
+  unfold WF; decide
+example : WF mAB := concat_wf mA [mB] mAB ex_concat (by
+  intro m hm
+  simp only [List.mem_cons, List.not_mem_nil, or_false] at hm
+  rcases hm with rfl | rfl <;> (unfold WF; decide))
+end DendroModel.C19.Aux
+
+namespace DendroModel.C19
+open DendroModel.C19.Aux
+
+/-- `remove_sequences` that raises: the taxa before the first one without a row are removed, that one stops the loop
+    with `KeyError`, the rest of the list is never looked at -/
+theorem remove_partial_state (pre : List Taxon) (t : Taxon) (post : List Taxon) (rs rs1 : Rows)
+    (hpre : removeSeqs pre rs = (rs1, none)) (ht : has t rs1 = false) :
+    removeSeqs (pre ++ t :: post) rs = (rs1, some .keyError) := by
+  induction pre generalizing rs with
+  | nil =>
+    simp only [removeSeqs, Prod.mk.injEq] at hpre
+    simp [removeSeqs, hpre.1, ht]
+  | cons a as ih =>
+    simp only [removeSeqs] at hpre
+    by_cases ha : has a rs = true
+    · simp only [ha, if_true] at hpre
+      simp only [List.cons_append, removeSeqs, ha, if_true]
+      exact ih _ hpre
+    · simp [ha] at hpre
+
+/-- the main loop of `concatenate` makes exactly one round per matrix: one subset per source matrix -/
+theorem concat_rounds (ms : List Matrix) (r : Matrix) (h : concatenate ms = .ok r) : r.subs.length = ms.length := by
+  have := congrArg List.length (concat_subsets ms r h)
+  have hsp : ∀ (p : Nat) (ws : List Nat), (spans p ws).length = ws.length := by
+    intro p ws; induction ws generalizing p with
+    | nil => simp [spans]
+    | cons a as ih => simp [spans, ih]
+  simpa [hsp] using this
+
+end DendroModel.C19
+
+namespace DendroModel.C19.Aux
+open DendroModel.C19
+example : removeSeqs [1] mA.rows = ([(0, [1, 2])], none) ∧ has 5 [(0, [1, 2])] = false := by decide
+end DendroModel.C19.Aux
